@@ -22,6 +22,9 @@ pub enum Op {
     NewAddr { a: Multiaddr },
     ExpireAddr { a: Multiaddr },
     BehClose { peer: usize, one: Option<usize> },
+    /// resolve transport dial k with `peer`, poll the Swarm ONCE (the task queues its report), call
+    /// disconnect_peer_id(dp), then poll to quiescence
+    Race { k: usize, peer: usize, deny: bool, dp: usize },
 }
 
 pub fn peers() -> Vec<PeerId> {
@@ -100,6 +103,7 @@ impl Op {
             Op::NewAddr { a } => format!("newaddr {}", maddr_tok(a)),
             Op::ExpireAddr { a } => format!("expire {}", maddr_tok(a)),
             Op::BehClose { peer, one } => format!("behClose {peer} {}", one.map(|c| c.to_string()).unwrap_or("all".into())),
+            Op::Race { k, peer, deny, dp } => format!("race {k} {peer} {} {dp}", *deny as u8),
         }
     }
     pub fn parse(t: &[String]) -> Op {
@@ -126,6 +130,7 @@ impl Op {
             "newaddr" => Op::NewAddr { a: parse_maddr(&t[1]) },
             "expire" => Op::ExpireAddr { a: parse_maddr(&t[1]) },
             "behClose" => Op::BehClose { peer: n(1), one: if t[2] == "all" { None } else { Some(n(2)) } },
+            "race" => Op::Race { k: n(1), peer: n(2), deny: t[3] == "1", dp: n(4) },
             other => panic!("replay: unknown op {other}"),
         }
     }
@@ -274,6 +279,13 @@ impl Runner {
                 let l = self.listener;
                 self.sim.push_transport_event(TransportEvent::AddressExpired { listener_id: l, listen_addr: a.clone() });
             }
+            Op::Race { k, peer, deny, dp } => {
+                self.script.lock().unwrap().deny_est_out = *deny;
+                new_mux = self.sim.resolve_dial(*k, Ok(self.peers[*peer]));
+                self.sim.poll_once();
+                let r = self.sim.swarm.disconnect_peer_id(self.peers[*dp]);
+                res = format!("res={}", if r.is_ok() { "ok" } else { "err" });
+            }
             Op::BehClose { peer, one } => {
                 let connection = match one {
                     Some(c) => match self.real_conn(*c) {
@@ -326,7 +338,9 @@ impl Runner {
                 out.op("order");
                 // raw order, with the `mux,closed` entries (detached close tasks) moved to the end
                 let mut ordered: Vec<String> = raw.iter().filter(|l| !l.starts_with("mux,")).cloned().collect();
-                ordered.extend(raw.iter().filter(|l| l.starts_with("mux,")).cloned());
+                let mut muxes: Vec<String> = raw.iter().filter(|l| l.starts_with("mux,")).cloned().collect();
+                muxes.sort();
+                ordered.extend(muxes);
                 out.imp(&if ordered.is_empty() { "-".to_string() } else { ordered.join("|") });
             }
             Err(m) => {
@@ -424,7 +438,13 @@ impl Gen {
             75..=77 => Op::FailIn { k: if r.n_incoming == 0 { 0 } else { rng.usize(r.n_incoming + 1) } },
             78..=83 => Op::Close { c: some_conn(rng) },
             84..=88 => Op::Disconnect { peer: 1 + rng.usize(3) },
-            89..=92 => Op::RemoteClose { c: some_conn(rng) },
+            89..=90 => Op::RemoteClose { c: some_conn(rng) },
+            91..=92 => Op::Race {
+                k: if n_dials == 0 { 0 } else { rng.usize(n_dials + 1) },
+                peer: 1 + rng.usize(3),
+                deny: rng.chance(1, 10),
+                dp: 1 + rng.usize(3),
+            },
             93..=95 => Op::NewAddr { a: rng.pick(&self.addrs).clone() },
             96 => Op::ExpireAddr { a: rng.pick(&self.addrs).clone() },
             _ => Op::BehClose { peer: 1 + rng.usize(3), one: if rng.bool() { Some(some_conn(rng)) } else { None } },
